@@ -473,14 +473,23 @@ def starve_schedule(cfg, victim, until_kind):
 def directed(tally, out):
     results = {}
     # F16: fresh archipelago with hall of fame, helper 1 starved => sees EXIT at its first probe
-    cfg = Cfg(R=2, sync=1, calls=[1], nb=True, cost=1, hof=True, pre_evaluate=False, rng_seed=5)
+    cfg = Cfg(R=2, sync=1, calls=[1], nb=True, cost=1, hof=True, pre_evaluate=False, rng_seed=5, max_steps=20000)
     res = run_scenario(cfg, starve_schedule(cfg, 1, None))
     tally.add(cfg, ("explicit", list(res.schedule)), res, "directed-F16")
+    if res.verdict in ("step-limit", "wallclock", "stub-stall"):
+        # the starved helper finds its exit notification at its first probe: the call must still return on every rank
+        tally.report(cfg, ("explicit", list(res.schedule)), res.schedule, res.verdict,
+                     {"key": "no-return-under-fair-schedule",
+                      "desc": f"helper starved until the exit notification was sent: verdict {res.verdict} after {res.steps} steps; blocked: {res.blocked}"},
+                     "directed-F16")
     results["F16"] = (res.verdict, [e[0] if e else None for e in res.errors])
     # F10: two non-blocking calls, rank 0 slow in the first one => helpers overshoot
     cfg = Cfg(R=3, sync=1, calls=[3, 3], nb=True, cost=6, hof=True, pre_evaluate=True, rng_seed=6)
     res = run_scenario(cfg, MPI.RandomPolicy(11))
     tally.add(cfg, ("explicit", list(res.schedule)), res, "directed-F10")
+    if res.verdict in ("step-limit", "wallclock", "stub-stall"):
+        tally.report(cfg, ("explicit", list(res.schedule)), res.schedule, res.verdict,
+                     {"key": "no-return-under-fair-schedule", "desc": f"verdict {res.verdict} after {res.steps} steps; blocked: {res.blocked}"}, "directed-F10")
     results["F10"] = (res.verdict, [[(c["island_age0"], c["island_age1"]) for c in rr] for rr in res.results]
                       if res.verdict == "ok" else None)
     # speed assumption violated: generation cost 0, three ranks, round-robin => rank 0 never stops draining
